@@ -352,6 +352,17 @@ def run_check(pid, tier, seed, replay=None):
                     discharged = obligations - 1
                 else:
                     assumptions_seen = parse_assumptions(out2)
+                    # every property theorem must be closed, or rest only on standard-library axioms that the
+                    # property's config names (props/Cxx.json "allowed_axioms"); anything else is a broken obligation
+                    allowed = set(cfg.get("allowed_axioms", []))
+                    for a in assumptions_seen:
+                        if a.startswith("Axioms:"):
+                            names = set(re.findall(r"([A-Za-z0-9_.']+)\s*:", a[len("Axioms:"):]))
+                            extra = sorted(n for n in names if n.split(".")[-1] not in allowed and n not in allowed)
+                            if extra:
+                                problems.append("Print Assumptions of %s lists axioms that are not declared in the trusted base: %s" % (pf, ", ".join(extra)))
+                    if not assumptions_seen:
+                        problems.append("property theorem file %s prints no assumptions (Print Assumptions missing?)" % pf)
                     open(os.path.join(rundir, "assumptions.log"), "w").write(out2)
         # 2b. thorough tier: independent re-check of the compiled property file with coqchk
         if tier == "thorough" and rc == 0 and cfg.get("props_file") and os.environ.get("VERIF_COQCHK", "1") != "0":
